@@ -66,6 +66,9 @@ func createCmd(globalCfg *globalConfig, cfg *createConfig) error {
 		if err != nil {
 			return fmt.Errorf("failed to create big index writer: %w", err)
 		}
+		// release the writer's pending transaction if creating the index fails: otherwise
+		// closing the temporary database (deferred above) would block forever.
+		defer idx.Close()
 
 		iw = idx
 	} else {
